@@ -185,15 +185,22 @@ static void op_tagged_getn(const VhLine *l) {
     free(raw);
 }
 
-/* tagged.add <v> <amount decimal> <force 0|1> : slot holds enc(v) followed by guard bytes */
+/* tagged.add <v> <amount decimal> <force 0|1> [slot width]: slot holds enc(v) (or the legal
+ * fixed-width form of v when a width is given) followed by guard bytes */
 static void op_tagged_add(const VhLine *l) {
     uint64_t v = p_u64(arg(l, 1));
     int64_t amount = p_i64(arg(l, 2));
     int force = (int)p_u64(arg(l, 3));
+    int slotw = l->n > 4 ? (int)p_u64(arg(l, 4)) : 0;
     uint8_t buf[GUARD + 16 + GUARD], before[sizeof(buf)];
     memset(buf, 0xC3, sizeof(buf));
     uint8_t *p = buf + GUARD;
-    int orig = (int)varintTaggedPut64(p, v);
+    int orig;
+    if (slotw && tagged_fixed_legal(v, slotw)) {
+        orig = (int)varintTaggedPut64FixedWidth(p, v, (varintWidth)slotw);
+    } else {
+        orig = (int)varintTaggedPut64(p, v);
+    }
     memcpy(before, buf, sizeof(buf));
     int r = force ? (int)varintTaggedAddGrow(p, amount) : (int)varintTaggedAddNoGrow(p, amount);
     bool changed = memcmp(before, buf, sizeof(buf)) != 0;
